@@ -398,12 +398,17 @@ func (s *Server) serveStream(ctx context.Context, r io.Reader, w io.Writer, req 
 				// Maybe externalize large data batches
 				dataBatch := ab.batch
 				if s.externalConfig != nil && dataBatch.NumRows() > 0 {
-					extBatch, _, extErr := maybeExternalizeBatchCtx(ctx, dataBatch, arrow.Metadata{}, s.externalConfig)
+					extBatch, extMeta, extErr := maybeExternalizeBatchCtx(ctx, dataBatch, arrow.Metadata{}, s.externalConfig)
 					if extErr != nil {
 						slog.Error("failed to externalize stream batch", "err", extErr)
 					} else if extBatch != dataBatch {
+						// The pointer batch is a bare zero-row batch; the location and
+						// checksum the client resolves it with ride its metadata, as on
+						// the unary path.
+						withMeta := array.NewRecordBatchWithMetadata(extBatch.Schema(), extBatch.Columns(), extBatch.NumRows(), extMeta)
 						dataBatch.Release()
-						dataBatch = extBatch
+						extBatch.Release()
+						dataBatch = withMeta
 					}
 				}
 				// Maybe ship the data batch through shared memory.
